@@ -161,8 +161,15 @@ func vfCorpusC01() []*vfWorldCase {
 			vfReqAct(0, 0, "GET", "/app", 1, func(q *vfReq) { q.AcceptJS = js; q.Script = &vfTokenScript{Kind: kind, Spec: spec} }),
 			vfGated(0, 0, "/app", 1)}}}
 	}
+	// a session without refresh token whose ID token is 3 s from the END of the expiry tolerance: served once more,
+	// then (real time passes) the tolerance is over and nothing may be forwarded, whatever was cached meanwhile
+	edgeTok := vfPlainTok("a@example.com", -117)
+	edgeTok.IatIn = -900
+	edge := &vfWorldCase{Kind: "corpus", Script: vfScript{Cfg: vfWorldCfg{EndSession: true, GraceSec: 60}, Browsers: 1, Actions: []vfAction{
+		{Kind: "mint", Browser: 0, Mint: &vfMintSpec{Auth: true, Email: "a@example.com", Tok: edgeTok, RefreshLen: 0}},
+		vfGated(0, 0, "/app", 1), {Kind: "sleep", SleepMs: 4300}, vfGated(0, 0, "/app", 1), vfGated(0, 0, "/app/again", 1)}}}
 	return []*vfWorldCase{sse, foreign, stale("no_id_token", false, nil), stale("no_id_token", true, nil),
-		stale("ok", false, vfTokForState(nil, "expired")), stale("ok", false, vfTokForState(nil, "bad_sig"))}
+		stale("ok", false, vfTokForState(nil, "expired")), stale("ok", false, vfTokForState(nil, "bad_sig")), edge}
 }
 
 // ---------------------------------------------------------------- C03: state, nonce, PKCE binding
@@ -396,6 +403,9 @@ func vfGenC07(r *vfRand, id int) *vfWorldCase {
 	cs := &vfWorldCase{ID: id, Kind: "overwrite-chain", Script: vfScript{Cfg: cfg, Browsers: 1}}
 	sc := func() *vfTokenScript {
 		s := vfOkScript(vfSizedTok(r, vfSizes[r.intn(len(vfSizes))], r.chance(2, 3)))
+		if r.chance(1, 6) { // tens of kilobytes, around 32 KiB and beyond (mostly compressible, so that the cookies stay few)
+			s = vfOkScript(vfSizedTok(r, []int{31000, 32000, 32768, 33500, 48000, 70000}[r.intn(6)], r.chance(1, 5)))
+		}
 		s.Rotate = r.chance(2, 3)
 		s.RefreshLen = []int{0, 0, 1500, 2600, 5200, 9000}[r.intn(6)]
 		return s
@@ -428,7 +438,17 @@ func vfCorpusC07() []*vfWorldCase {
 		vfReqAct(0, 0, "GET", "/app", 1, func(q *vfReq) { q.Script = tiny }),
 		vfReqAct(0, 0, "GET", "/app", 1, func(q *vfReq) { q.Script = big }),
 		vfGated(0, 0, "/app", 1))
-	return []*vfWorldCase{{Kind: "corpus", Script: vfScript{Cfg: vfWorldCfg{EndSession: true, GraceSec: 7200}, Browsers: 1, Actions: acts}}}
+	// tens of kilobytes (compressible): 32768 and 32769 bytes of padding, 48000, then short again
+	huge := func(n int) *vfTokenScript { return vfOkScript(vfSizedTok(nil, n, false)) }
+	acts2 := append(vfLogin(0, 0, "/app", huge(32768)),
+		vfReqAct(0, 0, "GET", "/app", 1, func(q *vfReq) { q.Script = huge(32769) }),
+		vfReqAct(0, 0, "GET", "/app", 1, func(q *vfReq) { q.Script = huge(48000) }),
+		vfReqAct(0, 0, "GET", "/app", 1, func(q *vfReq) { q.Script = tiny }),
+		vfGated(0, 0, "/app", 1))
+	return []*vfWorldCase{
+		{Kind: "corpus", Script: vfScript{Cfg: vfWorldCfg{EndSession: true, GraceSec: 7200}, Browsers: 1, Actions: acts}},
+		{Kind: "corpus", Script: vfScript{Cfg: vfWorldCfg{EndSession: true, GraceSec: 7200}, Browsers: 1, Actions: acts2}},
+	}
 }
 
 // ---------------------------------------------------------------- C08: refresh
@@ -478,6 +498,8 @@ func vfGenC18(r *vfRand, id int) *vfWorldCase {
 	cs := vfGenC07(r, id)
 	cs.Kind = "cookie-attributes"
 	cs.Script.Cfg.ForceHTTPS = r.chance(1, 2)
+	// what the proxy in front says about the client's scheme: with forceHTTPS the cookies are Secure whatever it says
+	cs.Script.Cfg.ClientProto = vfPick(r, "", "http", "https", "http")
 	// long request URIs at the start of a login, around the length where the main cookie is largest
 	n := []int{10, 900, 1000, 1020, 1024, 1025, 1030, 1500, 1900, 1950, 1990, 2100, 4000}[r.intn(13)]
 	cs.Script.Actions = append([]vfAction{vfGated(0, 0, "/long?"+strings.Repeat("a", n), 1)}, cs.Script.Actions...)
@@ -491,6 +513,12 @@ func vfCorpusC18() []*vfWorldCase {
 		out = append(out, &vfWorldCase{Kind: "corpus", Script: vfScript{Cfg: vfWorldCfg{PKCE: true, ForceHTTPS: true, GraceSec: 60}, Browsers: 1,
 			Actions: []vfAction{vfGated(0, 0, "/p?"+strings.Repeat("a", n-3), 1)}}})
 	}
+	// forceHTTPS behind a proxy that reports plain http: login with chunked tokens, refresh, logout
+	sc := vfOkScript(vfSizedTok(nil, 6000, true))
+	sc.RefreshLen = 2600
+	acts := append(vfLogin(0, 0, "/app", sc), vfGated(0, 0, "/app", 1), vfLogoutAct(0, 0))
+	out = append(out, &vfWorldCase{Kind: "corpus", Script: vfScript{Cfg: vfWorldCfg{ForceHTTPS: true, EndSession: true, GraceSec: 7200, ClientProto: "http"},
+		Browsers: 1, Actions: acts}})
 	return out
 }
 
@@ -559,9 +587,27 @@ func vfGenC10(r *vfRand, id int) *vfWorldCase {
 	if r.chance(1, 3) {
 		t.Extra = map[string]interface{}{"realm": map[string]interface{}{"roles": "r1"}}
 	}
+	// half of the histories refresh: the first token is inside the grace period, so the next request
+	// obtains a token with OTHER groups / roles / template claims (and e-mail): the forwarded headers of
+	// that very request must come from the new token
+	refreshing := r.chance(1, 2)
+	if refreshing {
+		t.ExpIn = int64(20 + r.intn(30))
+	}
 	acts := vfLogin(0, 0, "/app", vfOkScript(t))
+	first := true
 	for i := 1 + r.intn(4); i > 0; i-- {
 		acts = append(acts, vfReqAct(0, 0, vfPick(r, "GET", "POST"), "/app", 1, func(q *vfReq) {
+			if refreshing && first {
+				first = false
+				t2 := vfPlainTok(vfPick(r, "user@example.com", "other@example.com"), 3600)
+				t2.Groups = vfClaimShapes[r.intn(len(vfClaimShapes))]
+				t2.Roles = vfClaimShapes[r.intn(len(vfClaimShapes))]
+				if r.chance(1, 2) {
+					t2.Extra = map[string]interface{}{"realm": map[string]interface{}{"roles": "r2"}}
+				}
+				q.Script = vfOkScript(t2)
+			}
 			pool := []int{1, 2, 3, 4, 5, 150}
 			for j := range cfg.Templates {
 				pool = append(pool, 100+j)
@@ -580,8 +626,22 @@ func vfGenC10(r *vfRand, id int) *vfWorldCase {
 func vfCorpusC10() []*vfWorldCase {
 	t := vfPlainTok("user@example.com", 3600)
 	acts := append(vfLogin(0, 0, "/app", vfOkScript(t)), vfReqAct(0, 0, "GET", "/app", 1, func(q *vfReq) { q.ClientIDs = []int{4, 5, 100, 1} }))
-	return []*vfWorldCase{{Kind: "corpus", Script: vfScript{Cfg: vfWorldCfg{EndSession: true, GraceSec: 60,
-		Templates: []vfTemplate{{"X-Fail", "{{.Claims.missing.deeper}}"}}}, Browsers: 1, Actions: acts}}}
+	// refresh to a token with other groups, no roles and another templated claim
+	t1 := vfPlainTok("user@example.com", 30)
+	t1.Groups, t1.Roles = []interface{}{"admins"}, []interface{}{"superuser"}
+	t1.Extra = map[string]interface{}{"realm": map[string]interface{}{"roles": "finance"}}
+	t2 := vfPlainTok("user@example.com", 3600)
+	t2.Groups = []interface{}{"staff"}
+	t2.Extra = map[string]interface{}{"realm": map[string]interface{}{"roles": "support"}}
+	acts2 := append(vfLogin(0, 0, "/app", vfOkScript(t1)),
+		vfReqAct(0, 0, "GET", "/app", 1, func(q *vfReq) { q.Script = vfOkScript(t2); q.ClientIDs = []int{4, 5} }),
+		vfReqAct(0, 0, "GET", "/app", 1, nil))
+	return []*vfWorldCase{
+		{Kind: "corpus", Script: vfScript{Cfg: vfWorldCfg{EndSession: true, GraceSec: 60,
+			Templates: []vfTemplate{{"X-Fail", "{{.Claims.missing.deeper}}"}}}, Browsers: 1, Actions: acts}},
+		{Kind: "corpus", Script: vfScript{Cfg: vfWorldCfg{EndSession: true, GraceSec: 60,
+			Templates: []vfTemplate{{"X-Deep", "{{.Claims.realm.roles}}"}, {"X-Tok", "Bearer {{.AccessToken}}"}}}, Browsers: 1, Actions: acts2}},
+	}
 }
 
 // ---------------------------------------------------------------- C11: logout
@@ -689,8 +749,14 @@ func vfGenC16(r *vfRand, id int) *vfWorldCase {
 	cs := &vfWorldCase{ID: id, Kind: "error-bodies", Script: vfScript{Cfg: cfg, Browsers: 1}}
 	m := func() string { return vfMarkup[r.intn(len(vfMarkup))] }
 	var acts []vfAction
-	if r.chance(1, 2) {
-		acts = append(acts, vfGated(0, 0, "/app", 1), vfAction{Kind: "authorize", Browser: 0})
+	if r.chance(2, 3) {
+		// the login starts from a target that itself carries markup (sent raw, as a hand-made client can):
+		// it is remembered in the session and must not come back unescaped in a later error page either
+		tgt := "/app"
+		if r.chance(2, 3) {
+			tgt = "/app/search?q=" + vfPick(r, "\"><script>alert(7)</script>", "'><svg/onload=alert(8)>", "<b>x</b>&y=\"z\"", m())
+		}
+		acts = append(acts, vfGated(0, 0, tgt, 1), vfAction{Kind: "authorize", Browser: 0})
 	}
 	for i := 1 + r.intn(4); i > 0; i-- {
 		a := vfAction{Kind: "callback", Browser: 0, AcceptJS: r.chance(1, 2), StateMode: vfPick(r, "own", "garbage", "absent"), CodeMode: vfPick(r, "own", "garbage", "absent"),
@@ -720,7 +786,12 @@ func vfCorpusC16() []*vfWorldCase {
 		return &vfWorldCase{Kind: "corpus", Script: vfScript{Cfg: vfWorldCfg{EndSession: true, GraceSec: 60}, Browsers: 1, Actions: []vfAction{
 			{Kind: "callback", Browser: 0, AcceptJS: js, ErrParam: "access_denied", ErrDesc: "<script>alert(1)</script>", CodeMode: "absent", StateMode: "absent"}}}}
 	}
-	return []*vfWorldCase{mk(false), mk(true)}
+	// markup in the query of the request that started the login, then an error page for that browser
+	stored := &vfWorldCase{Kind: "corpus", Script: vfScript{Cfg: vfWorldCfg{EndSession: true, GraceSec: 60}, Browsers: 1, Actions: []vfAction{
+		vfGated(0, 0, "/app/search?q=\"><script>alert(9)</script>", 1), {Kind: "authorize", Browser: 0},
+		{Kind: "callback", Browser: 0, ErrParam: "access_denied", ErrDesc: "denied", CodeMode: "absent", StateMode: "own"},
+		{Kind: "callback", Browser: 0, CodeMode: "garbage", StateMode: "garbage"}}}}
+	return []*vfWorldCase{mk(false), mk(true), stored}
 }
 
 // ---------------------------------------------------------------- C17: bad client state
